@@ -118,6 +118,16 @@ def confuse(tape, model):
 
     # a reference to a name that exists nowhere can never compile: the caller may demand a refusal
     sure = '!' if wk in ('unknown', 'unknown-namespace') else ''
+    if kind == 'alias-type' and t.chance(25):
+        # an alias of itself, directly or through a nullable / list / map wrapper; the first two can never
+        # compile
+        wk, wn = 'self', d.name
+        wrappers = []
+        cur = d.type
+        while cur.kind in ('nullable', 'list', 'map'):
+            wrappers.append(cur.kind)
+            cur = cur.inner if cur.kind == 'nullable' else (cur.item if cur.kind == 'list' else cur.val)
+        sure = '!' if all(w == 'nullable' for w in wrappers) else ''
     if kind in ('field-type', 'tag-type', 'alias-type'):
         target = x if kind != 'alias-type' else d
         set_ref(target.type)
